@@ -1,4 +1,5 @@
 use std::collections::HashSet;
+use syn::ext::IdentExt;
 use syn::visit_mut::VisitMut;
 
 #[derive(Copy, Clone, Eq, PartialEq)]
@@ -40,7 +41,7 @@ fn all_binding_idents(sig: &mut syn::Signature) -> HashSet<String> {
 
     impl syn::visit_mut::VisitMut for Collector {
         fn visit_pat_ident_mut(&mut self, i: &mut syn::PatIdent) {
-            self.0.insert(i.ident.to_string());
+            self.0.insert(i.ident.unraw().to_string());
             syn::visit_mut::visit_pat_ident_mut(self, i);
         }
     }
@@ -56,7 +57,8 @@ fn all_binding_idents(sig: &mut syn::Signature) -> HashSet<String> {
 
 fn fix_ident_conflicts(sig: &mut syn::Signature) -> ParamStatus {
     let mut status = ParamStatus::Ok;
-    let fn_ident_string = sig.ident.to_string();
+    // `r#foo` and `foo` are the same identifier
+    let fn_ident_string = sig.ident.unraw().to_string();
     let mut taken_idents = all_binding_idents(sig);
 
     for fn_arg in sig.inputs.iter_mut() {
@@ -69,13 +71,13 @@ fn fix_ident_conflicts(sig: &mut syn::Signature) -> ParamStatus {
                     param_ident.mutability = None;
                     param_ident.subpat = None;
 
-                    if param_ident.ident == fn_ident_string {
+                    if param_ident.ident.unraw() == fn_ident_string {
                         // format_ident handles raw identifiers (`r#match` -> `r#match_`)
                         let mut new_ident = quote::format_ident!("{}_", param_ident.ident);
-                        while taken_idents.contains(&new_ident.to_string()) {
+                        while taken_idents.contains(&new_ident.unraw().to_string()) {
                             new_ident = quote::format_ident!("{}_", new_ident);
                         }
-                        taken_idents.insert(new_ident.to_string());
+                        taken_idents.insert(new_ident.unraw().to_string());
                         param_ident.ident = new_ident;
                     }
 
